@@ -7,6 +7,7 @@ import Gtree.Lemmas.BlockHavoc
 import Gtree.Lemmas.MkOrder
 import Gtree.Lemmas.VerifyOrder
 import Gtree.Lemmas.MkInterleave
+import Gtree.Lemmas.InterleavePerm
 /-
   C10 — massive mode is the simple mode up to the order of roots: the parts that are logic.
   (1) Printer: with the mutex held around the printing of a whole root, the output of every schedule
@@ -385,5 +386,23 @@ theorem C10_exists_check_passes_any_moment (f : Fmt) (exts : List Bytes) (ts : L
     ∃ s, runE fs done = (s, none) ∧ anyRootExists s (key ts) [growRoot f t] = false :=
   exists_check_passes f exts ts roots fs hts hg hd hnf (nodes_absent f exts ts roots fs hts hg hc hnone)
     done hmem hord t ht hnot
+end Gtree
+
+namespace Gtree
+/-- **C10, "walk callbacks see the same nodes with order preserved inside a root" — for every schedule.**  In the
+    massive mode each root is walked by a worker, so the callbacks of different roots interleave.  For EVERY
+    interleaving `r` of the roots' visit sequences (the sequences the simple mode produces root by root): `r` is a
+    permutation of the simple mode's visits — the same nodes, each exactly as often — and whatever precedes a visit
+    inside its own root precedes it in `r`. -/
+theorem C10_walk_any_interleaving (f : Fmt) (roots : List T) (r : List Visit)
+    (hint : Interleave (roots.map (growRoot f)) r) :
+    r.Perm (roots.map (growRoot f)).flatten ∧
+    ∀ (a : List Visit) (v : Visit) (b : List Visit), r = a ++ v :: b →
+      ∃ t ∈ roots, ∃ la lb, growRoot f t = la ++ v :: lb ∧ ∀ x ∈ la, x ∈ a := by
+  refine ⟨hint.perm, ?_⟩
+  intro a v b e
+  obtain ⟨l, hl, la, lb, hsplit, hsub⟩ := hint.before a v b e
+  obtain ⟨t, ht, rfl⟩ := List.mem_map.mp hl
+  exact ⟨t, ht, la, lb, hsplit, hsub⟩
 end Gtree
 
